@@ -330,6 +330,62 @@ theorem holder_was_nominated (s : Slot) (ops : List Op) :
 example : (Slot.init 1).run [.transfer 1 2, .accept 2] = ⟨2, 2⟩ := by decide
 example : (Slot.init 1).run [.transfer 1 2, .accept 2, .accept 1, .transfer 1 3, .accept 3] = ⟨2, 2⟩ := by decide
 example : (Slot.init 1).run [.transfer 1 2, .accept 2, .transfer 2 1, .accept 1] = ⟨1, 1⟩ := by decide
+/-! audit additions: each handover theorem instantiated on the 1 → 2 handover -/
+example : 1 = (Slot.init 1).cur ∧ (⟨1, 2⟩ : Slot).cur = (Slot.init 1).cur ∧ (⟨1, 2⟩ : Slot).next = 2 :=
+  transfer_requires_holder (Slot.init 1) ⟨1, 2⟩ 1 2 (by decide)
+example : 2 = (⟨1, 2⟩ : Slot).next ∧ (⟨1, 2⟩ : Slot).next ≠ (⟨1, 2⟩ : Slot).cur ∧
+    (⟨2, 2⟩ : Slot).cur = 2 ∧ (⟨2, 2⟩ : Slot).next = 2 :=
+  accept_requires_nomination ⟨1, 2⟩ ⟨2, 2⟩ 2 (by decide)
+example : (⟨2, 2⟩ : Slot).accept 1 = none := no_reaccept ⟨1, 2⟩ ⟨2, 2⟩ 2 (by decide) 1
+example : (⟨1, 2⟩ : Slot).step (.accept 3) = none := stranger_rejected ⟨1, 2⟩ (.accept 3) (by decide) (by decide)
+example : (⟨1, 2⟩ : Slot).run [.accept 3, .transfer 3 3, .transfer 4 1] = ⟨1, 2⟩ :=
+  stranger_powerless _ _ (by decide)
+example : (⟨2, 2⟩ : Slot).run [.transfer 1 3, .accept 1, .transfer 1 1] = ⟨2, 2⟩ :=
+  displaced_holder_powerless ⟨1, 2⟩ ⟨2, 2⟩ 2 (by decide) _ (by decide)
+/-- `holder_was_nominated`: the third disjunct is needed (the holder after two handovers is neither the
+initial holder nor the initial nominee) -/
+example : ((Slot.init 1).run [.transfer 1 2, .accept 2, .transfer 2 3, .accept 3]).cur = 3 ∧
+    (3 : Nat) ≠ (Slot.init 1).cur ∧ (3 : Nat) ≠ (Slot.init 1).next := by decide
+
+/-- Per-step sharpening of `holder_was_nominated` (whose third disjunct accepts ANY `transfer` op in the
+history, including rejected ones signed by strangers): the holder changes only through an `accept`
+signed by the pending nominee … -/
+theorem holder_changes_only_by_accept (s : Slot) (op : Op) (h : (s.apply op).cur ≠ s.cur) :
+    op = .accept s.next ∧ s.next ≠ s.cur ∧ (s.apply op).cur = s.next := by
+  cases hstep : s.step op with
+  | none => simp [Slot.apply, hstep] at h
+  | some s1 =>
+    have e : s.apply op = s1 := by simp [Slot.apply, hstep]
+    rw [e] at h ⊢
+    cases op with
+    | transfer sg n =>
+      obtain ⟨_, hc, _⟩ := transfer_requires_holder s s1 sg n hstep
+      exact absurd hc h
+    | accept sg =>
+      obtain ⟨hs, hne, hc, _⟩ := accept_requires_nomination s s1 sg hstep
+      exact ⟨by rw [hs], hne, hc.trans hs⟩
+
+/-- … and the nominee changes only through a `transfer` signed by the CURRENT holder -/
+theorem nominee_changes_only_by_holder (s : Slot) (op : Op) (h : (s.apply op).next ≠ s.next) :
+    ∃ n, op = .transfer s.cur n ∧ (s.apply op).next = n := by
+  cases hstep : s.step op with
+  | none => simp [Slot.apply, hstep] at h
+  | some s1 =>
+    have e : s.apply op = s1 := by simp [Slot.apply, hstep]
+    rw [e] at h ⊢
+    cases op with
+    | transfer sg n =>
+      obtain ⟨hs, _, hn⟩ := transfer_requires_holder s s1 sg n hstep
+      exact ⟨n, by rw [hs], hn⟩
+    | accept sg =>
+      obtain ⟨hs, _, _, hn⟩ := accept_requires_nomination s s1 sg hstep
+      exact absurd (hn.trans hs) h
+
+example : Op.accept 2 = .accept (⟨1, 2⟩ : Slot).next ∧ (⟨1, 2⟩ : Slot).next ≠ (⟨1, 2⟩ : Slot).cur ∧
+    ((⟨1, 2⟩ : Slot).apply (.accept 2)).cur = (⟨1, 2⟩ : Slot).next :=
+  holder_changes_only_by_accept ⟨1, 2⟩ (.accept 2) (by decide)
+example : ∃ n, Op.transfer 1 2 = .transfer (Slot.init 1).cur n ∧ ((Slot.init 1).apply (.transfer 1 2)).next = n :=
+  nominee_changes_only_by_holder (Slot.init 1) (.transfer 1 2) (by decide)
 end Handover
 
 /-! ## non-vacuity -/
@@ -337,5 +393,75 @@ example : Guarded .store_market_transfer_in = true ∧ (info .store_market_trans
 example : Guarded .store_create_deposit = true ∧ (info .store_create_deposit).attr = none := by decide +kernel
 example : run (σ := Nat) .store_market_transfer_in (fun _ => false) (fun s => (s + 1, .ok ())) 5 = (5, .error .permissionDenied) := by rfl
 example : run (σ := Nat) .store_market_transfer_in (fun r => r == .MARKET_KEEPER) (fun s => (s + 1, .ok ())) 5 = (6, .ok ()) := by rfl
+
+/-! ## audit additions: the premises of the table theorems are met by many instructions, and the
+reviewed lists in their conclusions are tight -/
+
+/-- how many instructions satisfy the premises of, in this order: `writable_unguarded_is_owner_bound`,
+`lp_competition_owner_bound`, `owner_call_semantics`, `store_binding_complete` (with at least one state
+account), `handler_only_instructions`, `stranger_fails_handler_checks`, `unchecked_naming`,
+`doc_role_matches_attr` (second disjunct), `doc_role_without_attr`, `init_before_guard`, `multi_role_guards` -/
+example :
+    (IxId.all.filter fun ix => (info ix).attr == none && (info ix).writable && handlerAuth ix == .none
+        && !unprivileged.contains ix).length ≥ 20 ∧
+    (IxId.all.filter fun ix => (info ix).program == .liquidity_provider || (info ix).program == .competition).length ≥ 10 ∧
+    (IxId.all.filter fun ix => OwnerBound ix).length ≥ 20 ∧
+    (IxId.all.filter fun ix => (info ix).attr.isSome && !(Gmx.Gen.StoreBinding.stateAccounts ix).isEmpty).length ≥ 50 ∧
+    (IxId.all.filter fun ix => !Guarded ix && handlerAuth ix != .none).length = 9 ∧
+    (IxId.all.filter fun ix => handlerAuth ix != .none).length ≥ 9 ∧
+    (IxId.all.filter fun ix => (info ix).callsUnchecked).length ≥ 50 ∧
+    (IxId.all.filter fun ix => (info ix).attr.isSome && (info ix).docRoles != []).length ≥ 30 ∧
+    (IxId.all.filter fun ix => (info ix).attr == none && (info ix).docRoles != []).length = 6 ∧
+    (IxId.all.filter fun ix => (info ix).attr.isSome && decide ((info ix).inits > 0)).length = 17 ∧
+    (IxId.all.filter fun ix => match (info ix).attr with | some rs => decide (rs.length > 1) | none => false).length = 3 := by
+  decide +kernel
+
+/-- the reviewed lists in the conclusions of `handler_only_instructions`, `doc_role_without_attr`,
+`init_before_guard` and `multi_role_guards` contain no entry that does not satisfy the premises
+(so each of those theorems is an "exactly these") -/
+theorem reviewed_lists_are_tight :
+    ([IxId.store_close_deposit, .store_close_withdrawal, .store_close_order_v2, .store_close_shift,
+      .store_close_glv_deposit, .store_close_glv_withdrawal, .store_claim_fees_from_market,
+      .timelock_approve_instruction, .timelock_approve_instructions].all
+        fun ix => !Guarded ix && handlerAuth ix != .none) = true ∧
+    ([IxId.store_close_deposit, .store_close_withdrawal, .store_close_order_v2, .store_close_shift,
+      .store_close_glv_deposit, .store_close_glv_withdrawal].all
+        fun ix => (info ix).attr == none && (info ix).docRoles != []) = true ∧
+    ([IxId.store_initialize_price_feed, .store_initialize_market, .store_initialize_market_vault,
+      .store_use_claimable_account, .store_liquidate, .store_auto_deleverage, .store_initialize_glv,
+      .store_insert_glv_market, .store_remove_glv_market, .store_create_glv_shift,
+      .store_create_virtual_inventory_for_swaps, .store_create_virtual_inventory_for_positions,
+      .treasury_initialize_treasury_vault_config, .treasury_claim_fees, .treasury_prepare_gt_bank,
+      .timelock_initialize_config, .timelock_create_instruction_buffer].all
+        fun ix => (info ix).attr.isSome && decide ((info ix).inits > 0)) = true ∧
+    ([IxId.store_update_market_config, .store_update_market_config_flag, .store_update_market_config_with_buffer].all
+        fun ix => match (info ix).attr with | some rs => decide (rs.length > 1) | none => false) = true := by
+  decide +kernel
+
+/-- `policy_complete` is not satisfied through one disjunct only: both kinds exist, and some
+instruction is protected ONLY by its in-handler check -/
+example : unprivileged.length ≥ 20 ∧ (IxId.all.filter fun ix => Protected ix).length ≥ 100 ∧
+    (IxId.all.filter fun ix => Protected ix && !Guarded ix).length = 9 := by decide +kernel
+
+/-- `owner_call_semantics`, `stranger_fails_handler_checks`, `guard_rejects`, `guard_accepts` instantiated -/
+example : ownerCallPasses .store_create_deposit false = false ∧ ownerCallPasses .store_create_deposit true = true :=
+  owner_call_semantics .store_create_deposit (by decide +kernel)
+example : handlerAuthOk ⟨fun _ => false, false, false, false⟩ true (handlerAuth .store_close_deposit) = false :=
+  stranger_fails_handler_checks .store_close_deposit true (by decide +kernel)
+/-- … while the owner, and a keeper on a finished action, pass the same check (the check is not constant `false`) -/
+example : handlerAuthOk ⟨fun _ => false, true, false, false⟩ false (handlerAuth .store_close_deposit) = true ∧
+    handlerAuthOk ⟨fun r => r == .ORDER_KEEPER, false, false, false⟩ true (handlerAuth .store_close_deposit) = true ∧
+    handlerAuthOk ⟨fun r => r == .ORDER_KEEPER, false, false, false⟩ false (handlerAuth .store_close_deposit) = false := by
+  decide +kernel
+example : run (σ := Nat) .store_market_transfer_in (fun _ => false) (fun s => (s + 1, .ok ())) 5 = (5, .error .permissionDenied) :=
+  guard_rejects _ _ _ _ [.MARKET_KEEPER] (by decide +kernel) (by intro r _; rfl)
+example : run (σ := Nat) .store_market_transfer_in (fun r => r == .MARKET_KEEPER) (fun s => (s + 1, .ok ())) 5 = (6, .ok ()) :=
+  guard_accepts _ _ _ _ [.MARKET_KEEPER] (by decide +kernel) .MARKET_KEEPER (by simp) (by decide)
+/-- a two-role guard: the SECOND role alone is accepted by the Boolean guard (`guard_accepts` with `r` not the head) -/
+example : run (σ := Nat) .store_update_market_config (fun r => r == .MARKET_CONFIG_KEEPER) (fun s => (s + 1, .ok ())) 5 = (6, .ok ()) :=
+  guard_accepts _ _ _ _ [.MARKET_KEEPER, .MARKET_CONFIG_KEEPER] market_config_guards.1 .MARKET_CONFIG_KEEPER (by simp) (by decide)
+/-- `store_binding_complete` / `foreign_allowlist_tight`: an unbound state account really occurs -/
+example : (Gmx.Gen.StoreBinding.stateAccounts .timelock_create_instruction_buffer).any
+    (fun a => a.name == "instruction_buffer" && !storeBound a.binding) = true := by decide +kernel
 
 end Gmx.C19
